@@ -6,6 +6,8 @@ package main
 // Oracle: no two honest parties from different groups both complete; completers hold byte-identical views of every
 // non-final broadcast round. Also checks the mechanism itself: equal view digests <=> equal views (across all handlers).
 // A second mode (c06_modes.go, "reencode") covers the rounds in which two honest instances cannot differ.
+// A third mode (c06_resend.go, "resend"): version 1 of the round-k broadcast goes to everybody, then version 2 to group 2 while
+// it is still in round k, then the second instance's later messages with the echo digest each recipient expects.
 // Every case is executed by c06Exec (no access to the shared result) and reported by c06Report, so that the slow CMP
 // cases can run on several goroutines: each has its own deterministic reader (muxReader), its own copy of the key material
 // restored from bytes and sessions without a worker pool.
@@ -36,8 +38,9 @@ type c06Replay struct {
 	Policy   string   `json:"policy"`
 	Finished []string `json:"finished"`
 	What     string   `json:"what"`
-	// Mode: "fork" (two honest instances of the equivocator diverging at the round, the default) or "reencode"
-	// (one instance; group 2 gets the same content in another, equally decodable CBOR encoding: see c06_modes.go)
+	// Mode: "fork" (two honest instances of the equivocator diverging at the round, the default), "reencode"
+	// (one instance; group 2 gets the same content in another, equally decodable CBOR encoding: see c06_modes.go) or "resend"
+	// (group 2 gets version 1 and then, still in the round, version 2; afterwards the second instance's messages: c06_resend.go)
 	Mode     string `json:"mode,omitempty"`
 	Variant  string `json:"variant,omitempty"`
 	Adaptive bool   `json:"adaptive,omitempty"`
@@ -115,12 +118,15 @@ func viewsOf(n *Node) map[int]map[party.ID][]byte {
 
 // c06Mode selects how the equivocator produces two versions of its round-k broadcast.
 type c06Mode struct {
-	Name     string // "fork" | "reencode"
+	Name     string // "fork" | "reencode" | "resend"
 	Variant  string // reencode: "long-header" | "extra-field"
 	Adaptive bool   // reencode: round-(k+1) messages to group 2 carry the recipient's own view digest
 }
 
 func (m c06Mode) String() string {
+	if m.Name == "resend" {
+		return "resend"
+	}
 	if m.Name != "reencode" {
 		return "fork"
 	}
@@ -188,8 +194,11 @@ func c06Exec(j c06Job) *c06Out {
 	}
 	var s *Sim
 	var re *reencState
+	var rs *resendState
 	if mode.Name == "reencode" {
 		s, re = buildReencoded(sp, seed, E, g1, k, mode.Variant, det)
+	} else if mode.Name == "resend" {
+		s, rs = buildResend(sp, seed, E, g1, k, j.bcast, det)
 	} else {
 		s, _ = buildTwoFaced(sp, seed, E, g1, k, det)
 	}
@@ -214,6 +223,9 @@ func c06Exec(j c06Job) *c06Out {
 		if mode.Adaptive {
 			i = adaptivePick(s, i, E, g1, k)
 		}
+		if rs != nil {
+			i, keep = rs.pick(s, i), false
+		}
 		var e *Env
 		if keep {
 			e = s.Flight[i]
@@ -223,7 +235,13 @@ func c06Exec(j c06Job) *c06Out {
 		if mode.Adaptive {
 			adaptivePatch(s, e, E, g1, k)
 		}
+		if rs != nil {
+			rs.patch(s, e)
+		}
 		s.Deliver(e)
+		if rs != nil {
+			rs.delivered(s, e)
+		}
 	}
 	var G1, G2, fin []string
 	finished := map[party.ID]bool{}
@@ -243,6 +261,9 @@ func c06Exec(j c06Job) *c06Out {
 		}
 	}
 	rp := c06Replay{Spec: sp.Name, Seed: seed, Cheater: string(E), Round: k, G1: G1, G2: G2, Policy: j.pol, Finished: fin, Mode: "fork"}
+	if rs != nil {
+		rp.Mode = "resend"
+	}
 	key := fmt.Sprintf("C06/%s/round%d", sp.Name, k)
 	class := fmt.Sprintf("%s/round%d", sp.Name, k)
 	// did the two groups really receive different, individually valid round-k broadcasts?
@@ -294,6 +315,20 @@ func c06Exec(j c06Job) *c06Out {
 				equivocated = false
 			}
 		}
+		if rs != nil {
+			key += "/resend"
+			class += "/resend"
+			// the case bites only if every member of group 2 was given version 2 after version 1 while it was in round k
+			for _, id := range G2 {
+				if !rs.open[party.ID(id)] {
+					equivocated = false
+				}
+			}
+			if len(G2) > 0 && !equivocated && b1 != nil && b2 != nil && !bytes.Equal(b1, b2) {
+				class += "/not-in-round"
+				o.notes = append(o.notes, fmt.Sprintf("C06 %s round %d resend (%s, %s, group 2 %v): version 2 did not reach every member of group 2 in round %d after version 1 (v1 %v, v2 %v, open %v)", sp.Name, k, E, j.pol, G2, k, rs.v1At, rs.v2At, rs.open))
+			}
+		}
 	}
 	o.class = fmt.Sprintf("%s/equivocated=%v", class, equivocated)
 	o.fp = fmt.Sprintf("%s/%s/%d/%v/%s/%d/%s", sp.Name, E, k, G1, j.pol, seed, mode)
@@ -310,6 +345,15 @@ func c06Exec(j c06Job) *c06Out {
 	for _, a := range G1 {
 		for _, b := range G2 {
 			if finished[party.ID(a)] && finished[party.ID(b)] {
+				if rs != nil {
+					// resend: group 2 holds version 1 as well; a split = both complete, but not with the same (public) result
+					ra, _ := resultOf(s.Nodes[party.ID(a)])
+					rb, _ := resultOf(s.Nodes[party.ID(b)])
+					if fa, fb := c06PublicFP(ra), c06PublicFP(rb); fa != fb {
+						violate(key+"/split", fmt.Sprintf("%s sent version 1 of its round-%d broadcast to everybody and then version 2 to %v; honest %s (group 1) and %s (group 2) both completed, with different results", E, k, G2, a, b))
+					}
+					continue
+				}
 				violate(key+"/split", fmt.Sprintf("honest %s and %s received different round-%d broadcasts from %s and both completed", a, b, k, E))
 			}
 		}
@@ -417,9 +461,10 @@ func c06Parallel(jobs []c06Job, workers int) []*c06Out {
 }
 
 func runC06(c *ctx) {
-	c.res.Rule = "two modes for every broadcast round k that is followed by a further round, every protocol family on the multi-party handler: " +
+	c.res.Rule = "three modes for every broadcast round k that is followed by a further round, every protocol family on the multi-party handler: " +
 		"(fork) two-faced party = two honest instances diverging at round k; (reencode) one instance whose round-k broadcast reaches group 2 in another, equally decodable CBOR encoding " +
-		"(plain, and adaptive: the equivocator echoes the recipient's own view digest); every equivocator and every 2-partition of the honest parties (n=3,4) for FROST keygen/sign with FIFO/LIFO/random schedules, " +
+		"(plain, and adaptive: the equivocator echoes the recipient's own view digest); (resend) version 1 of the round-k broadcast to everybody, then version 2 to group 2 while it is in round k, then the second instance's " +
+		"messages with the digest each recipient expects (no cross-group completers with different results); every equivocator and every 2-partition of the honest parties (n=3,4) for FROST keygen/sign with FIFO/LIFO/random schedules, " +
 		"one equivocator/partition per round for CMP keygen, sign, presign (refresh, all positions and fork mode on every round in the thorough tier); non-trivial = the two groups really received different, individually valid round-k broadcasts"
 	var rpl *c06Replay
 	if c.replay != "" {
@@ -452,6 +497,8 @@ func runC06(c *ctx) {
 			mode := c06Mode{Name: "fork"}
 			if rpl.Mode == "reencode" {
 				mode = c06Mode{"reencode", rpl.Variant, rpl.Adaptive}
+			} else if rpl.Mode == "resend" {
+				mode = c06Mode{Name: "resend"}
 			}
 			return []c06Job{{mk(), rpl.Seed, party.ID(rpl.Cheater), g1, rpl.Round, last, sh.Bcast, rpl.Policy, mode, isCMP}}
 		}
@@ -489,6 +536,10 @@ func runC06(c *ctx) {
 						forked := c.thorough() || !isCMP || c06ForkRounds(name)[k]
 						if forked {
 							jobs = append(jobs, c06Job{mk(), seed, E, g1, k, last, sh.Bcast, pn, c06Mode{Name: "fork"}, isCMP})
+							// resend mode: wherever two instances can differ (CMP: the rounds of c06ForkRounds, in both tiers)
+							if !isCMP || c06ForkRounds(name)[k] {
+								jobs = append(jobs, c06Job{mk(), seed, E, g1, k, last, sh.Bcast, pn, c06Mode{Name: "resend"}, isCMP})
+							}
 						}
 						// reencode mode: every round (quick tier, CMP: the rounds that fork mode does not cover); the variant rotates with the case
 						nm := 1
